@@ -4,6 +4,8 @@
 def _c11_case(c):
     """case line (without the id) -> replay case understood by harness/cmd/c11 -replay"""
     t = c.split(" ")
+    if t[0] == "X":
+        return {"raw": c}
     pos = [0]
 
     def nxt():
@@ -18,9 +20,9 @@ def _c11_case(c):
         k = nxt()
         if k == "d":
             prep.append({"kind": "d", "path": unhex(nxt())})
-        elif k == "l":
+        elif k in ("l", "h"):
             p = unhex(nxt())
-            prep.append({"kind": "l", "path": p, "target": unhex(nxt())})
+            prep.append({"kind": k, "path": p, "target": unhex(nxt())})
         else:
             p = unhex(nxt())
             prep.append({"kind": "f", "path": p, "tag": int(nxt())})
@@ -47,6 +49,9 @@ def _c11_case(c):
                     es.append({"kind": ek, "name": nm, "target": unhex(nxt())})
                 else:
                     es.append({"kind": ek, "name": unhex(nxt())})
+                tm = int(nxt())
+                if tm:
+                    es[-1]["time"] = tm
             pushes.append({"kind": "U", "title": title, "entries": es})
     return {"prep": prep, "pushes": pushes, "preserve": preserve}
 
@@ -84,7 +89,7 @@ def _c11_vm_goal(case, out):
     pres = "true" if nxt() == "1" else "false"
     wd = _vm_path(unhex(nxt()))
     cwd = _vm_path(unhex(nxt()))
-    ents, cont, ino = [], [], 0
+    ents, cont, ino, files = [], [], 0, {}
     for _ in range(int(nxt())):
         k = nxt()
         if k == "d":
@@ -92,13 +97,18 @@ def _c11_vm_goal(case, out):
         elif k == "l":
             pth = _vm_path(unhex(nxt()))
             ents.append("(%s, sym_node %s)" % (pth, _vm_hexstr(nxt())))
-        else:
+        elif k == "h":
             pth = _vm_path(unhex(nxt()))
+            ents.append("(%s, NFile %d)" % (pth, files[unhex(nxt())]))
+        else:
+            rawp = unhex(nxt())
+            pth = _vm_path(rawp)
             tag = int(nxt())
             ents.append("(%s, NFile %d)" % (pth, ino))
+            files[rawp] = ino
             cont.append("(%d, %d%%N)" % (ino, tag * 1024 + 420))
             ino += 1
-    fs = "(mkFS %s %s %d [])" % (_vm_list(ents, "(path * node)"), _vm_list(cont, "(nat * N)"), ino)
+    fs = "(mkFS %s %s %d [] [] [])" % (_vm_list(ents, "(path * node)"), _vm_list(cont, "(nat * N)"), ino)
     ops = []
     for _ in range(int(nxt())):
         k = nxt()
@@ -107,7 +117,7 @@ def _c11_vm_goal(case, out):
             ops.append("PBlob %s %d%%N" % (title, int(nxt())))
         else:
             title = _vm_hexstr(nxt())
-            es = []
+            es, tms = [], []
             for _ in range(int(nxt())):
                 ek = nxt()
                 if ek == "r":
@@ -122,22 +132,24 @@ def _c11_vm_goal(case, out):
                     es.append("%s %s %s" % ("EHard" if ek == "h" else "ESym", nm, _vm_hexstr(nxt())))
                 else:
                     es.append("EOther %s" % _vm_hexstr(nxt()))
-            ops.append("PDir %s %s" % (title, _vm_list(es, "entry")))
+                tms.append("%d%%N" % int(nxt()))
+            ops.append("PDir %s %s %s" % (title, _vm_list(tms, "N"), _vm_list(es, "entry")))
     verdicts, _, listing = out.partition("|")
     oks = _vm_list(["true" if c == "O" else "false" for c in verdicts], "bool")
     paths, views = [], []
     for item in (listing.split(",") if listing else []):
         hp, _, v = item.partition(":")
+        v, _, st = v.partition("@")
         paths.append(_vm_path(unhex(hp)))
         if v[0] == "d":
-            views.append("VDir %s%%N" % v[1:])
+            views.append("VDir %s%%N %d%%N" % (v[1:], int(st or 0)))
         elif v[0] == "f":
             tg, _, m = v[1:].partition("m")
-            views.append("VFile %d%%N" % (int(tg) * 1024 + int(m)))
+            views.append("VFile %d%%N %d%%N" % (int(tg) * 1024 + int(m), int(st or 0)))
         else:
             views.append("VSym %s" % _vm_hexstr(v[1:]))
-    return ("let r := pushes %s %s %s %s (mkStore %s []) %s in\n  (snd r, map (view_at (st_fs (fst r))) %s, length (ents (st_fs (fst r))))\n  = (%s, %s, %d)"
-            % (g, pres, wd, cwd, fs, _vm_list(ops, "pushop"), _vm_list(paths, "path"), oks, _vm_list(views, "view"), len(paths)))
+    return ("let r := pushes %s %s %s %s (mkStore %s []) %s in\n  (snd r, map (vw %s (st_fs (fst r))) %s, length (ents (st_fs (fst r))))\n  = (%s, %s, %d)"
+            % (g, pres, wd, cwd, fs, _vm_list(ops, "pushop"), wd, _vm_list(paths, "path"), oks, _vm_list(views, "view"), len(paths)))
 
 
 def _c11_vm_sample(d, tier, coq, build):
@@ -153,13 +165,19 @@ def _c11_vm_sample(d, tier, coq, build):
     goals = []
     for l in lines[::stride][:want]:
         i, _, c = l.partition(" ")
-        if i in outs and not outs[i].startswith("BADCASE"):
+        if i in outs and not outs[i].startswith("BADCASE") and not outs[i].startswith("UNJUDGED"):
             goals.append((i, _c11_vm_goal(c, outs[i])))
     vdir = os.path.join(build, "vm")
     os.makedirs(vdir, exist_ok=True)
     vf = os.path.join(vdir, "C11_cases.v")
     with open(vf, "w") as f:
-        f.write("From Oras Require Import Base.Prelude Model.FileConfine.\n")
+        f.write("From Oras Require Import Base.Prelude Model.FileConfine.\n"
+                "(* the runner prints the time last set only for objects outside the working directory *)\n"
+                "Definition vw (wd : path) (f : fsys) (p : path) : view :=\n"
+                "  match view_at f p with\n"
+                "  | VDir m t => VDir m (if inside wd p then 0%N else t)\n"
+                "  | VFile c t => VFile c (if inside wd p then 0%N else t)\n"
+                "  | v => v end.\n")
         for i, g in goals:
             f.write("\n(* %s *)\nGoal %s.\nProof. vm_compute. reflexivity. Qed.\n" % (i, g))
     p = subprocess.run(["coqc", "-R", coq, "Oras", "-w", "-notation-overridden", vf], cwd=vdir, timeout=1500,
@@ -189,14 +207,18 @@ CONFIG = {
     "timeout_search": 900,
     "assumptions": [
         "kernel semantics are modelled, not verified: path resolution (component walk, '..' = physical parent, symbolic links followed up to 40 times, final link not followed by lstat/link/symlink/unlink, O_CREAT through a dangling link), link(2) not following a final symbolic link, hard links = shared inode; the model is tied to the real kernel + Go runtime only by the correspondence run",
-        "Lstat checks of the store (resolveRelToBase's parent loop, ensureDirNoSymlink, removeSymlink) are modelled as look-ups at the lexical location; the mutating system calls (mkdir, open, link, symlink, unlink, chmod) as kernel walks; their agreement is proved where used (walk_lex / walk_real) and exercised by the correspondence run",
-        "path/filepath (Clean, Join, Rel, Dir, IsAbs, Abs) hand-modelled on component lists (lc / rel_under); archive/tar, compress/gzip, digest verification, os.CreateTemp (temp files in TMPDIR are outside the statement) not modelled",
-        "permission bits are modelled (umask 022, Mkdir/OpenFile creation modes, os.Chmod under PreservePermissions) for modes <= 0777; Chtimes (which still follows an unpacked link and sets the times of its target), ownership, setuid/setgid/sticky bits are not modelled; the harness snapshot additionally compares mode, inode, size, content and link text of every object outside the working directory",
-        "Inv hypothesis: the working directory and its ancestors are real directories, files below it share no inode with the outside. Nothing is assumed about symbolic links: any links with any targets, made by the store (raw archive targets) or by the user, may be present",
-        "the harness runs as root inside chroot(-dir); titles/entry names/targets are generated from a fixed grammar; no concurrency (check-then-act between Lstat and the system call is not in scope)",
+        "Lstat checks of the store (resolveRelToBase's parent loop, ensureDirNoSymlink, removeSymlink, the Lstat before Chtimes) are modelled as look-ups at the lexical location; the mutating system calls (mkdir, open, link, symlink, unlink, chmod, utimes) as kernel walks; their agreement is proved where used (walk_lex / walk_real) and exercised by the correspondence run",
+        "path/filepath (Clean, Join, Rel, Dir, IsAbs, Abs) hand-modelled on component lists (lc / rel_under), Unix separators only (no Windows volume/backslash semantics); archive/tar and compress/gzip are abstracted to an entry list (PAX headers, short names; no USTAR prefix split, GNU long names, sparse or global headers); os.CreateTemp (temp files in TMPDIR are outside the statement) not modelled; path components > 255 bytes (ENAMETOOLONG) and chains of more than 40 links / 3000 walk steps are rejected by the code resp. the model as errors and not compared",
+        "times: the model records the time last set explicitly with utimes (os.Chtimes) per file inode / directory and the view contains it; implicit updates of times by writes are not modelled, so the correspondence compares times only for objects outside the working directory (where nothing may change); the snapshot oracle compares the real modification time of every outside object",
+        "permission bits are modelled (umask 022, Mkdir/OpenFile creation modes, os.Chmod under PreservePermissions, narrowing of the unpack directory) for modes <= 0777; ownership and setuid/setgid/sticky bits are not modelled or generated",
+        "Inv hypothesis (C11_confined_partial): the working directory exists and it and its ancestors are real directories; files below it share no inode with the outside. Nothing is assumed about symbolic links below the working directory. Excluded and covered otherwise: (a) working directory missing - modelled (MkdirAll(base)) and compared, its creation and the parent's modification time are the store's own; (b) working directory being / opened through a symbolic link - oracle only, judged at the physical location (model prints UNJUDGED); (c) pre-populated hard links to outside files - known finding shared-inode-*, C11_shared_inode_refuted",
+        "the working directory's own mode and times are the store's (inside wd wd = true; title '.' with a directory entry '.' chmods it; the snapshot ignores its mode and times) - its entry in the parent (existence, type, identity) is not: C11_working_directory_kept",
+        "pushes of manifests (restoreDuplicates re-pushes the named layers whose content the store holds) are driven by the harness and judged by the oracle only (model prints UNJUDGED); content that fails verification is modelled for named blobs (file written, then removed); truncated gzip / malformed tar are not generated (an archive that fails after k entries behaves like an entry that fails)",
+        "unnamed blobs go to the fallback storage (no file-system effect; the same content twice is refused - modelled for blobs only)",
+        "the harness runs as root inside chroot(-dir) with umask 022; titles/entry names/targets are generated from a fixed grammar; no concurrency (check-then-act between Lstat and the system call is not in scope); a run directory without POSIX modes, hard links or symbolic links is not supported",
     ],
-    "level_text": "Coq theorems over all trees satisfying the invariant (any symbolic links allowed), all titles, all entry sequences (regular, directory, symlink, hard link, other), all link targets, PreservePermissions on/off and any process cwd: every sequence of pushes of the repaired store leaves the view (existence, type, content, permission bits, link text) of every location outside the working directory unchanged and preserves the invariant; the working directory itself stays a real directory; names and entries that lexically resolve outside are rejected with an error; links are created with the raw archive target (C12) and never followed below the working directory, so every mutation happens at the validated lexical location; nine machine-checked counter-examples show the pre-repair code (each repair removed individually) escaping. Model tied to the code by a differential run of the extracted model against Store.Push on a real file system inside a chroot, plus an independent before/after snapshot oracle",
-    "level_note": "full for existence/type/content/permission bits/link text of every location outside the working directory and for the working directory's own entry; kernel path resolution and path/filepath are modelled (tied by the correspondence run), not verified; timestamps (Chtimes through an unpacked link)/ownership/special mode bits and Lstat-then-act races not modelled; five fix: commits on the repo branch (F10, raw absolute title, link replacing the unpack directory, ensureDirNoSymlink, removeSymlink)",
+    "level_text": "Coq theorems over all trees satisfying the invariant (any symbolic links allowed), all titles, all entry sequences (regular, directory, symlink, hard link, other) with any header times, all link targets, PreservePermissions on/off and any process cwd: every sequence of pushes of the repaired store leaves the view (existence, type, content, permission bits, time last set, link text) of every location outside the working directory unchanged and preserves the invariant; the working directory itself stays a real directory; titles, entry names (w.r.t. the working and the unpack directory), link targets and names with a link among their parents that resolve outside are rejected with an error; links are created with the raw archive target and never followed below the working directory; machine-checked counter-examples show the pre-repair code (each repair removed individually) escaping and the hypothesis on shared inodes being necessary. Model tied to the code by a differential run of the extracted model against Store.Push on a real file system inside a chroot (plus an in-Coq vm_compute re-evaluation sample), plus an independent before/after snapshot oracle",
+    "level_note": "partial: (1) a working directory pre-populated with hard links to outside files is overwritten in place (known finding shared-inode-*, not repaired; theorem hypothesis inv_ino); (2) working directory being / reached through a symbolic link and manifest pushes (restoreDuplicates) are covered by the oracle only, a missing working directory by model + correspondence but not by the theorem; (3) kernel path resolution and path/filepath are modelled (tied by the correspondence run), not verified; implicit time updates, ownership, special mode bits, tar/gzip framing and Lstat-then-act races are not modelled; seven fix: commits on the repo branch",
     "technique": "machine-checked proof in Coq (invariant over kernel path resolution with symbolic and hard links; lexical = physical lemma; frame theorem for every system call of the store) + model/implementation correspondence on a real file system + snapshot oracle",
     "explanation": "frame theorem (nothing outside the working directory changes) and invariant preservation for all push sequences of the repaired file store, proved in Coq; extracted model diffed against Store.Push (verdicts + full tree listing) on generated cases in a chroot sandbox; oracle = snapshot of everything outside the working directory before/after each Push + lexical outside-name rejection",
 }
